@@ -11,6 +11,7 @@ R5.4  text/binary bodies are not JSON-decoded: every function that emits `respon
       type first excludes str/bytes
 R5.5  no-content => None on the primary and the secondary path
 R5.7  the SSE runtime decoder itself: accumulator typestate and field parsing                 [rules shared with C18]
+R5.8  every declared media type of a response passes the streaming classification in the loader
 R5.6  streaming: the handler delegates chunks/events to the runtime decoders unchanged (decoders themselves: C18)
 """
 from __future__ import annotations
@@ -164,6 +165,7 @@ def run(repo: Repo, rep: Report, tier: str) -> None:
             rep.violation("R5.5", sub, f"{grh.fq}|no-content|{label}", "a declared success response without content no longer yields `return None`", grh.loc())
 
     _streaming_runtime(repo, rep)
+    _stream_classification(repo, rep)
 
     # ---------------------------------------------------------------- R5.6 streaming delegation
     wsr = hmod.classes["EndpointResponseHandlerGenerator"].methods["_write_strategy_based_return"]
@@ -190,6 +192,38 @@ def _streaming_runtime(repo: Repo, rep: Report) -> None:
     r = _Relabel(rep, "R5.7")
     c18._sse_typestate(sse, r)
     c18._parse_event_rules(pe, r)
+
+
+def _stream_classification(repo: Repo, rep: Report) -> None:
+    """R5.8: every declared media type of a response passes the streaming classification (the lookup in the table of streaming media
+    types): a `continue` / early exit inside the content loop would leave `stream` false for e.g. a schema-less `text/event-stream`."""
+    pr = repo.func("core.loader.responses.parser:parse_response")
+    tables = {n.targets[0].id for n in own_nodes(pr.node) if isinstance(n, ast.Assign) and isinstance(n.targets[0], ast.Name) and isinstance(n.value, ast.Dict)
+              and any(const_str(k) == "text/event-stream" for k in n.value.keys if k is not None)}
+    if not tables:
+        raise AnalysisError("anchor vanished: the table of streaming media types in parse_response")
+    cfg = CFG(pr.node)
+    loops = [n for n in cfg.nodes if n.kind == "iter" and isinstance(n.stmt, ast.For) and any(
+        isinstance(x, ast.Constant) and x.value == "content" for x in ast.walk(n.stmt.iter))]
+    rep.require(len(loops) == 1, f"R5.8: expected one loop over the response's `content` mapping, found {len(loops)}")
+    for h in loops:
+        inside = {id(x) for x in ast.walk(h.stmt)}
+        cls_nodes = {n.id for n in cfg.nodes if n.kind in ("stmt", "test") and n.ast is not None and id(n.ast) in inside and any(
+            isinstance(x, ast.Name) and x.id in tables for x in ast.walk(n.ast))}
+        sub = f"{pr.module.relpath}:parse_response every media type is classified (stream / not stream)"
+        if not cls_nodes:
+            rep.violation("R5.8", sub, f"{pr.fq}|no-classification", "the content loop no longer consults the table of streaming media types", pr.loc(h.stmt))
+            continue
+        w = None
+        for m, lab in cfg.succ[h.id]:
+            if lab == "loop" and m not in cls_nodes:
+                w = w or cfg.must_pass(m, cls_nodes, {h.id, cfg.exit})
+        if w is None:
+            rep.ok("R5.8", sub, "every path through one iteration of the content loop reaches the lookup in the streaming-media-type table", pr.loc(h.stmt))
+        else:
+            rep.violation("R5.8", sub, f"{pr.fq}|classification-bypassed",
+                          f"an iteration can end without the streaming lookup ({cfg.describe_path(w)}): a streaming media type declared that way yields a "
+                          "non-streaming method that JSON-decodes the body", pr.loc(h.stmt))
 
 
 def _template_text_of_call(fn: Function, c: ast.Call) -> Optional[str]:
